@@ -165,9 +165,10 @@ def r_axis(c):
         if lower is not None and needs_strict is None:
             lfd = lower[1]
             # indices[axis] where axis = expr.<fld>
-            alias = {f"expr.{fld}"}
+            lep = lfd.args.args[1].arg
+            alias = {f"{lep}.{fld}"}
             for st in ast.walk(lfd):
-                if isinstance(st, ast.Assign) and ast.unparse(st.value) == f"expr.{fld}":
+                if isinstance(st, ast.Assign) and ast.unparse(st.value) == f"{lep}.{fld}":
                     alias |= {ast.unparse(t) for t in st.targets}
             for n in ast.walk(lfd):
                 if isinstance(n, ast.Subscript) and not isinstance(n.slice, ast.Slice) \
